@@ -49,7 +49,10 @@ def gen(rng, tier, idx):
                     'n_runners_up': rng.randint(0, 3), 'min_markers': rng.choice([1, 3, 10]),
                     'encoding': rng.choice(['dense', 'csr', 'csc']),
                     'drop_level': None, 'flatten': rng.random() < 0.15},
-            'scheds': [common.draw_sched(rng) for _ in range(4)], 'perm_seed': rng.randrange(2 ** 31)}
+            'scheds': [common.draw_sched(rng) for _ in range(4)], 'perm_seed': rng.randrange(2 ** 31),
+            # the pipeline's truncation stage between statistics and markers (a sub-sequence of the levels is kept;
+            # when the leaf level goes, its parents become the leaves and the rows of the file are re-built)
+            'truncate': rng.random() < 0.3, 'truncate_seed': rng.randrange(2 ** 31)}
 
 
 def run(scn, sb):
@@ -70,6 +73,39 @@ def run(scn, sb):
         if o1[0] != 'ok':
             viol.append({'cls': 'statistics-stage-fails', 'detail': o1[1][:400]})
             return res
+        # ---- optional stage 1b: truncate the statistics file to a sub-sequence of the levels
+        if scn.get('truncate') and len(tax.hierarchy) >= 2:
+            import copy
+            from cell_type_mapper.diff_exp.truncate_precompute import truncate_precomputed_stats_file
+            tr = np.random.default_rng(scn['truncate_seed'])
+            nlv = len(tax.hierarchy)
+            while True:
+                keep = [lv for lv in tax.hierarchy if tr.random() < 0.6]
+                if 0 < len(keep) < nlv:
+                    break
+            if len(tax.truncate(keep).leaves) < 2:
+                # one cluster left: no pair of clusters exists, the marker stages have nothing to find (the
+                # reference-marker stage then fails with an UnboundLocalError -- observed, not judged: no choice
+                # exists anywhere in such a taxonomy, so the property says nothing about it)
+                res['not_judged']['truncated_to_a_single_leaf'] = 1
+                res['nontrivial'] = False
+                return res
+            stats_t = sb.p('out', 'stats_truncated.h5')
+            o1b = drivers.outcome_of(truncate_precomputed_stats_file, input_path=stats, output_path=stats_t,
+                                     new_hierarchy=keep)
+            if o1b[0] != 'ok':
+                viol.append({'cls': 'truncation-stage-rejects-statistics',
+                             'detail': 'new hierarchy %r of %r: %s' % (keep, tax.hierarchy, o1b[1][:300])})
+                return res
+            tax2 = tax.truncate(keep)
+            W2 = copy.copy(W)
+            W2.tax = tax2
+            W2.ref_labels = [None if lab is None else tax.ancestor(tax.leaf_level, lab, tax2.leaf_level)
+                             for lab in W.ref_labels]
+            res['probes']['truncated'] = 1
+            if tax2.leaf_level != tax.leaf_level:
+                res['probes']['truncated_leaf_level_dropped'] = 1
+            W, tax, stats = W2, tax2, stats_t
         # ---- stage 2: reference markers
         os.makedirs(sb.p('out', 'refm'))
         o2, s2 = harness.run_call(sch[1], drivers.run_reference_markers, [stats], sb.p('out', 'refm'),
